@@ -99,7 +99,7 @@ func runC20(c *ev.Ctx) {
 		"(e) lossy-only options must not change lossless bytes; (f) EmulateJpegSize changes nothing, TargetPSNR changes nothing when TargetSize is set; (g) OptionsForPreset(PresetDefault,q)==defaults; (h) boundary image dimensions; " +
 		"(i) extreme ints in every int field: error or valid file, never a panic. distinct = (kind, mutated field/value or sentinel subset, codec, alpha)"
 	n := c.N(10000, 1500000)
-	kinds := []string{"illegal", "legal", "sentinel", "sentinel", "nil", "lossyonly", "jpeg", "preset", "dims", "extreme", "illegal", "sentinel", "psnr", "pinned"}
+	kinds := []string{"illegal", "legal", "sentinel", "sentinel", "nil", "lossyonly", "jpeg", "preset", "dims", "extreme", "illegal", "sentinel", "psnr", "pinned", "psnrtarget"}
 	var cases []ev.Case
 	for i := 0; i < n; i++ {
 		cc := c20Case{Kind: kinds[i%len(kinds)], Sub: i / len(kinds)}
@@ -277,6 +277,26 @@ func c20One(c *ev.Ctx, cs ev.Case) {
 		c.Distinct(fmt.Sprintf("psnr|ts%d|psnr%g|M%d|pass%d", a.TargetSize, a.TargetPSNR, a.Method, a.Pass))
 		m = mm
 		same("TargetPSNR with TargetSize set", a, &b, map[string]string{"kind": "psnr"})
+	case "psnrtarget":
+		// TargetPSNR "adjusts quality across multiple passes to converge toward this PSNR level": on busy content two
+		// targets 14 dB apart, both inside what quality 0..100 can reach, cannot lead to the same file.
+		mm := img.Gen(r, pickS(r, "noise", "photo", "tiles"), "opaque", 64+r.Intn(64), 64+r.Intn(64))
+		a := webp.DefaultOptions()
+		a.Method = r.Intn(7)
+		a.Pass = pickI(r, 4, 6, 10)
+		a.Quality = pickF(r, 30, 50, 75, 90)
+		a.TargetPSNR = 28
+		b := *a
+		b.TargetPSNR = 42
+		ba, ea := encode(mm, a)
+		bb, eb := encode(mm, &b)
+		c.Eval(1)
+		c.Distinct(fmt.Sprintf("psnrtarget|M%d|pass%d|q%g", a.Method, a.Pass, a.Quality))
+		if ea != nil || eb != nil {
+			c.Violate(cs, "legal-rejected", map[string]string{"kind": "psnrtarget"}, fmt.Sprintf("%v / %v", ea, eb), nil)
+		} else if bytes.Equal(ba, bb) {
+			c.Violate(cs, "target-psnr-without-effect", map[string]string{"kind": "psnrtarget"}, fmt.Sprintf("TargetPSNR 28 and 42 give the same %d bytes [%s]", len(ba), optString(a)), map[string]string{"a": optString(a), "b": optString(&b)})
+		}
 	case "pinned":
 		// QMin == QMax (both documented as literal quality values in 0..100, only QMax < 0 is a sentinel) leaves the
 		// size / PSNR search no freedom: with Quality at the same value every pass runs at that quality, so the value
